@@ -1,0 +1,43 @@
+package ulidutils
+
+import (
+	"sync"
+	"testing"
+
+	"github.com/oklog/ulid/v2"
+	"github.com/stretchr/testify/assert"
+)
+
+func TestMakeOrderedIsStrictlyIncreasingPerCaller(t *testing.T) {
+	var wg sync.WaitGroup
+	for g := 0; g < 16; g++ {
+		wg.Add(1)
+		go func() {
+			defer wg.Done()
+			prev := MakeOrdered()
+			for i := 0; i < 20000; i++ {
+				next := MakeOrdered()
+				if next.Compare(prev) <= 0 {
+					t.Errorf("%s was made after %s but does not sort after it", next, prev)
+					return
+				}
+				prev = next
+			}
+		}()
+	}
+	wg.Wait()
+}
+
+func TestMakeOrderedCarriesIntoTheTimestamp(t *testing.T) {
+	orderedMu.Lock()
+	saved := lastOrdered
+	// far in the future, entropy exhausted: the next id must still sort after it
+	lastOrdered = ulid.ULID{0x7f, 0, 0, 0, 0, 0, 0xff, 0xff, 0xff, 0xff, 0xff, 0xff, 0xff, 0xff, 0xff, 0xff}
+	want := ulid.ULID{0x7f, 0, 0, 0, 0, 1}
+	orderedMu.Unlock()
+	got := MakeOrdered()
+	orderedMu.Lock()
+	lastOrdered = saved
+	orderedMu.Unlock()
+	assert.Equal(t, want, got)
+}
